@@ -59,14 +59,14 @@ func init() {
 	Props["C09"] = &PropSpec{
 		Level:       "other",
 		Rules:       []string{"R21", "R22", "R05", "R08", "R02", "R03", "R14", "R43"},
-		Explanation: "For all polygons, flags and grids: every quotient feeding the outside-grid range check has a numerator proven non-negative by an earlier rejection (R21; Go's / truncates toward zero, the F2 defect class); every vertex of every ring passes the range check before anything is stored or snapped (R05, R08); both axes and all four sides are treated alike (R02, R03); a failed check propagates unchanged and ends in panic or a fresh empty map with snapping unreachable, the quiet exit only for an OutsideGridError under IgnoreOutsideGrid, and the rejection error has exactly the dynamic type errors.As is asked for (R22, R14).",
+		Explanation: "For all polygons, flags and grids: every quotient feeding the outside-grid range check has a numerator proven non-negative by an earlier rejection (R21; Go's / truncates toward zero, the F2 defect class); every vertex of every ring passes the range check before anything is stored or snapped (R05, R08); both axes and all four sides are treated alike (R02, R03); a failed check propagates unchanged and ends in panic or a fresh empty map with snapping unreachable, the quiet exit only for an OutsideGridError under IgnoreOutsideGrid, and the rejection error has exactly the dynamic type errors.As is asked for (R22, R14); the pixel size the range check divides by is quo(root span, 2^deepest), so that size x pixel count never exceeds the extent (R43).",
 		Decided:     []string{"sound rejection on the left/bottom side (R21)", "range check before store, on all four sides, both axes (R08, R03, R02)", "rejection is final: panic or empty result (R22)", "the right option is consulted (R14)"},
 		NotDecided:  []string{"offsets below the 1e-10 integer resolution", "exact position of the right/top border on grids whose extent does not divide evenly"},
 	}
 	Props["C10"] = &PropSpec{
 		Level:       "other",
 		Rules:       []string{"R28", "R29", "R30", "R11", "R23", "R24", "R27", "R15p", "R36"},
-		Explanation: "For all feature streams, target sets and schedules: dispatch by geometry type with a default arm forwarding the untouched geometry once per target; exactly one delivery per (feature, tile matrix present in the result) carrying the received feature, that key and the geometry of the same key; the router sends exactly once per received feature on the channel selected by its TileMatrixID (R28); the wrapper is transparent for columns and id (R29); multipolygon parts are merged per tile matrix and the merged result has no entry without geometry (R30); absent <=> no geometry (R11); the per-tile-matrix wrapper is written only at construction and the constructor returns a fresh value (R27). Per-target FIFO follows from single sender / single consumer per channel (R23, R24); 'only the geometry computed for that target' needs no in-place write to the shared column slice (R27); map order cannot change deliveries (R15p).",
+		Explanation: "For all feature streams, target sets and schedules: dispatch by geometry type with a default arm forwarding the untouched geometry once per target; exactly one delivery per (feature, tile matrix present in the result) carrying the received feature, that key and the geometry of the same key; the router sends exactly once per received feature on the channel selected by its TileMatrixID (R28); the wrapper is transparent for columns and id (R29); multipolygon parts are merged per tile matrix and the merged result has no entry without geometry (R30); absent <=> no geometry (R11); the per-tile-matrix wrapper is written only at construction and the constructor returns a fresh value (R27). Per-target FIFO follows from single sender / single consumer per channel (R23, R24); 'only the geometry computed for that target' needs no in-place write to the shared column slice (R27); map order cannot change deliveries (R15p); the per-polygon function main hands to the pipeline returns snap.SnapPolygon of its own arguments on every path (R36).",
 		Decided:     []string{"one delivery per feature and tile matrix, none for absent ones (R28, R11)", "attribute pass-through (R29)", "multipolygon merge (R30)", "order per target (R23, R24)", "no cross-target contamination through shared column storage (R27)"},
 		NotDecided:  []string{"correctness of the snapped geometry itself (C01-C09)", "nothing dynamic is sampled"},
 	}
@@ -80,7 +80,7 @@ func init() {
 	Props["C12"] = &PropSpec{
 		Level:       "other",
 		Rules:       []string{"R31", "R32", "R33", "R47"},
-		Explanation: "Row-completeness clauses for all (count, positive page size): typestate of the page buffer over all paths — every appended feature is flushed exactly once before WriteFeatures returns (R31); every flushed feature is inserted exactly once through a statement prepared on the page's transaction, which is committed on every normal path, with the extent accumulated over every feature, only through the two known idioms, and merged after commit (R32); attribute/geometry column order agrees between selectSQL, insertSQL, createSQL, ReadFeatures and writeFeatures (R33); the target table is registered from the source table's own description and every catalogue column is scanned into the field it describes (R47).",
+		Explanation: "Row-completeness clauses for all (count, positive page size): typestate of the page buffer over all paths — every appended feature is flushed exactly once before WriteFeatures returns (R31); every flushed feature is inserted exactly once through a statement prepared on the page's transaction, which is committed on every normal path, with the extent accumulated over every feature, only through the two known idioms, and merged after commit (R32); attribute/geometry column order agrees between selectSQL, insertSQL, createSQL, ReadFeatures and writeFeatures (R33); the target table is registered from the source table's own description and every catalogue column is scanned into the field it describes, and every geometry type name the library writes maps back to its type (R47).",
 		Decided:     []string{"one flush per buffered feature incl. the final partial page (R31)", "one INSERT per flushed feature in a committed transaction; extent over all rows (R32)", "column order agreement (R33)", "schema (name, columns, geometry column/type, srs) copied field by field for every table (R47)"},
 		NotDecided:  []string{"what SQLite/SpatiaLite do with the statements (rtree triggers, gpkg_contents arithmetic, schema copy)", "dropped Commit error (only matters under I/O faults, outside the quantifier)"},
 	}
@@ -94,21 +94,21 @@ func init() {
 	Props["C14"] = &PropSpec{
 		Level:       "other",
 		Rules:       []string{"R37", "R38", "R09"},
-		Explanation: "Validation cannot reach shape-assuming code (FromTileMatrixSet, MatrixSize, MatrixBoundingBox) before IsQuadTree accepted the set, IsQuadTree's error is returned, every explicit panic reachable from validation is excluded by a check in IsQuadTree on the same field, all guards on VariableMatrixWidths use one emptiness predicate, and every error produced inside validation is returned (R37); IsQuadTree iterates the complete sorted id set without skips, updates the predecessor unconditionally, and enforces each of the ten quadtree conditions with the stated operands and operator, pairwise ones only under `previous != nil` (R38); accepted => the level arithmetic used by snapping is the one used by validation (R09).",
+		Explanation: "Validation cannot reach shape-assuming code (FromTileMatrixSet, MatrixSize, MatrixBoundingBox) before IsQuadTree accepted the set, IsQuadTree's error is returned, every explicit panic reachable from validation is excluded by a check in IsQuadTree on the same field, all guards on VariableMatrixWidths use one emptiness predicate, every error produced inside validation is returned, and the gate and the statistics receive the tile matrix set exactly as handed in (R37); IsQuadTree iterates the complete sorted id set without skips, updates the predecessor unconditionally, and enforces each of the ten quadtree conditions with the stated operands and operator, pairwise ones only under `previous != nil` (R38); accepted => the level arithmetic used by snapping is the one used by validation (R09).",
 		Decided:     []string{"gate first, no panic behind it (R37)", "every condition enforced for every matrix incl. the last (R38)", "pixel-size relation shared by validation and snapping (R09)"},
 		NotDecided:  []string{"the verdict on each of the 14 shipped documents (evaluating IsQuadTree on data)", "that the first id is 0 and matrix 0 is 1x1 (not tested by IsQuadTree; ids not starting at 0 are rejected later by MatrixBoundingBox(0))", "slices.Max panics on an empty id list (outside the quantifier)"},
 	}
 	Props["C15"] = &PropSpec{
 		Level:       "other",
 		Rules:       []string{"R02", "R42", "R44", "R16t"},
-		Explanation: "Pairing clauses for all tile matrix sets: width-flavoured operands only on the x side and height-flavoured only on the y side in FromNative, ToNative, MatrixSize, MatrixBoundingBox (R02); identical corner-of-origin case analysis (default falls through to TopLeft; BottomLeft) and sign convention in the three functions; one common ToXYPoint for the origin (R42); FromNative(ToNative(tile)) == tile per axis and corner convention, MatrixSize = tiles x tile size, the bounding box spans matrix-size tiles from the origin — polynomial identities over the code's symbols (R44); no package-level state, cache or sync below the addressing functions (R16t).",
+		Explanation: "Pairing clauses for all tile matrix sets: width-flavoured operands only on the x side and height-flavoured only on the y side in FromNative, ToNative, MatrixSize, MatrixBoundingBox (R02); identical corner-of-origin case analysis (default falls through to TopLeft; BottomLeft) and sign convention in the three functions; one common ToXYPoint for the origin (R42); FromNative(ToNative(tile)) == tile per axis and corner convention, MatrixSize = tiles x tile size, the bounding box spans matrix-size tiles from the origin — polynomial identities over the code's symbols (R44); a negative or too large column/row index never yields a tile (R44); the axis order of every built-in set is answered by IsLatLon itself -- partial evaluation of its decision on the CRS reference of each embedded document -- never by the orderedAxes fallback (R42); no package-level state, cache or sync below the addressing functions (R16t).",
 		Decided:     []string{"operand pairing (R02)", "corner-of-origin agreement (R42)", "ToNative and FromNative are mutually inverse as formulas; bounding box spans the matrix (R44)", "addressing is stateless (R16t)"},
 		NotDecided:  []string{"rounding (9 decimals) versus unrounded division at tile borders", "content of the EPSG axis table"},
 	}
 	Props["C16"] = &PropSpec{
 		Level:       "other",
 		Rules:       []string{"R39", "R40", "R15j"},
-		Explanation: "For all documents: every hand-written codec reads exactly the keys it writes, json:\"-\" fields are exactly the re-added special keys, the three CRS variants have pairwise distinct required keys and no variant writes another's (R39: decode(encode(v)) cannot change variant or lose a special key). Decoding has no unchecked type assertion and no assertion whose ok result is discarded, no out-of-range submatch index, no missing-key fall-through, cannot return success without validate.Struct, has the positivity/required constraints on the named fields, parses ids with strconv and returns the error, decodes every array element into a fresh value, and no explicit panic is reachable from decoding in module code (R40); the encoder emits the tile matrices in an order independent of map iteration: sorted by a comparator over an identity field of the elements (TileMatrix.ID, stored under the integer it parses to) (R15j).",
+		Explanation: "For all documents: every hand-written codec reads exactly the keys it writes, json:\"-\" fields are exactly the re-added special keys, the three CRS variants have pairwise distinct required keys and no variant writes another's, and no encoder assigns to a field of the value it encodes (R39: decode(encode(v)) cannot change variant, lose a special key or rewrite an id). Decoding has no unchecked type assertion and no assertion whose ok result is discarded, no out-of-range submatch index, no missing-key fall-through, cannot return success without validate.Struct, has the positivity/required/non-empty constraints on the named fields, parses ids with strconv and returns the error, decodes every array element into a fresh value, and no explicit panic is reachable from decoding in module code (R40); the encoder emits the tile matrices in an order independent of map iteration: sorted by a comparator over an identity field of the elements (TileMatrix.ID, stored under the integer it parses to) (R15j).",
 		Decided:     []string{"reader/writer key agreement and CRS variant exclusivity (R39)", "decode totality and validation (R40)"},
 		NotDecided:  []string{"marshmallow / validator / defaults internals", "float formatting stability of encoding/json", "validate tags on unexported fields are never evaluated ({\"crs\":{\"wkt\":{}}} is accepted)"},
 	}
